@@ -1,11 +1,12 @@
 #!/bin/bash
+VERIF_HOME=${VERIF_HOME:-$(cd "$(dirname "$0")/.." && pwd)}
 # tools/seed_try.sh <seed name> <check ids...> : run quick checks against a seeded change on a scratch worktree
 name=$1; shift
 wt=/tmp/wt/try-$name
 git -C /repo worktree remove --force $wt >/dev/null 2>&1
-git -C /repo worktree add -q $wt HEAD && git -C $wt apply /verif/seeded/$name/patch.diff || exit 2
+git -C /repo worktree add -q $wt HEAD && git -C $wt apply $VERIF_HOME/seeded/$name/patch.diff || exit 2
 for c in "$@"; do
-  VERIF_REPO=$wt VERIF_EVIDENCE_DIR=/tmp/wt/ev VERIF_REPLAY_DIR=/tmp/wt/rp-try timeout 900 /verif/check $c quick > /tmp/wt/try-$name-$c.out 2>&1
+  VERIF_REPO=$wt VERIF_EVIDENCE_DIR=/tmp/wt/ev VERIF_REPLAY_DIR=/tmp/wt/rp-try timeout 900 $VERIF_HOME/check $c quick > /tmp/wt/try-$name-$c.out 2>&1
   rc=$?
   echo "== $name vs $c: exit=$rc $( [ $rc = 1 ] && echo CAUGHT || echo MISSED )"
   grep -E "^  \[" /tmp/wt/try-$name-$c.out | sed 's/\] .*/]/' | sort | uniq -c | sort -rn | head -4
